@@ -67,6 +67,13 @@ let session p toks =
           | Some (st', rc) -> st := st'; zstr rc
           | None -> "nopage"
         end
+        else if t = "z" then begin
+          if !st.pages = [] || !st.spare = [] then "nopage" else
+          match recycle !st (nat_of_int (List.length !st.pages + List.length !st.spare - 1)) with
+          | Some (st', rc) -> st := st'; zstr rc
+          | None -> "nopage"
+        end
+        else if t = "c" then (st := clear !st; start := 0; fin := 0; "c0")
         else if n >= 2 && t.[0] = 'A' && t.[1] = ':' then
           (fail_at := int_of_nat !st.nalloc + int_of_string (String.sub t 2 (n - 2)); "A")
         else if t = "o" then observe p !st
